@@ -244,6 +244,19 @@ def shutdownWrite (d : Drv) : Option SErr → Drv × Option CErr
   | none => (d, none)
   | some e => let (d1, c) := raise d (ctlStreamErr e); (d1, some c)
 
+/-- `ConnectionInner::shutdown` as a whole: `keeps` = a GOAWAY whose identifier is not larger than
+    the new one was sent before (`sent_closing`, set *before* the write is attempted): `Ok(())` at
+    once; otherwise the write, `w` = what it answers.  The connection's error state is not looked
+    at on the way (D-05s: on a failed connection the call answers `Ok(())`). -/
+def shutdownEntry (d : Drv) (keeps : Bool) (w : Option SErr) : Drv × Option CErr :=
+  if keeps then (d, none) else shutdownWrite d w
+
+/-- a transport given by a script: the answers to successive calls, whatever the call (used up = `Pending`) -/
+def scriptTr : Transport (List Ans) :=
+  { call := fun l _ => match l with
+      | [] => ([], .pending)
+      | a :: r => (r, a) }
+
 /-- what the property text allows a connection error to look like, given the close calls made:
     a close call exactly when the error was detected locally (by h3, or inside the QUIC trait
     implementation: `InternalError`), with exactly that error's code -/
